@@ -35,6 +35,7 @@ type VerifLoop struct {
 	mu       sync.Mutex
 	sent     int // output-stream events fully handled by sendOperatorEvent
 	sendErrs []error
+	markers  map[*workerpb.Event]chan struct{} // harness drain markers queued on the output stream
 }
 
 // VerifNewLoop: keyBatch is the batch size of the async KeyEventBatch stage,
@@ -81,6 +82,14 @@ func VerifNewLoop(keyGroupCount int, operators []proto.Operator, keyBatch, opera
 			case <-ctx.Done():
 				return
 			case opEvent := <-r.outputStream:
+				l.mu.Lock()
+				ack, isMarker := l.markers[opEvent]
+				delete(l.markers, opEvent)
+				l.mu.Unlock()
+				if isMarker {
+					close(ack) // everything queued before the marker has been fully handled
+					continue
+				}
 				err := r.sendOperatorEvent(opEvent)
 				l.mu.Lock()
 				l.sent++
@@ -121,6 +130,23 @@ func (l *VerifLoop) Sent() (int, []error) {
 	l.mu.Lock()
 	defer l.mu.Unlock()
 	return l.sent, l.sendErrs
+}
+
+// Drain queues a marker behind everything the loop has put on the output
+// stream and returns once the output stage has reached it, i.e. once every
+// earlier output-stream event (however many the loop chose to queue) has been
+// fully handled by sendOperatorEvent. Call Sync and FlushKeyEvents first.
+func (l *VerifLoop) Drain() {
+	marker := &workerpb.Event{}
+	ack := make(chan struct{})
+	l.mu.Lock()
+	if l.markers == nil {
+		l.markers = map[*workerpb.Event]chan struct{}{}
+	}
+	l.markers[marker] = ack
+	l.mu.Unlock()
+	l.r.outputStream <- marker
+	<-ack
 }
 
 // FlushOperators pushes partially filled operator batches out.
